@@ -123,6 +123,17 @@ Theorem C20_echo_complete : forall (capa capb : nat) (data : list byte) (sch : l
 Proof. exact echo_complete. Qed.
 Print Assumptions C20_echo_complete.
 
+(* A child that copies its input to the end does not exit, and the parent never
+   sees end of file on its output, unless the parent's end of the child's stdin
+   gets closed — for every schedule without that close.  (A wait that consumes
+   the Child together with its ChildStdin must therefore close it first.) *)
+Theorem C20_echo_needs_close : forall (capa capb : nat) (data : list byte) (sch : list estep),
+  forallb (fun s => negb (is_closein s)) sch = true ->
+  let e := erun sch (echo_init capa capb data) in
+  ein_eof e = false /\ wclosed (eb e) = false /\ eeof e = false.
+Proof. exact echo_needs_close. Qed.
+Print Assumptions C20_echo_needs_close.
+
 (* Waiting, for EVERY label sequence the state machine accepts from the start
    (both modes, any interleaving with the environment): the status is delivered
    at most once; the child exits at most once; a delivered status is the one
